@@ -105,6 +105,13 @@ class ReflectionPlugin:
             st.assume(ISCLASS(new))
             st.emit('new_class', name=ca.args[0], bases=ca.args[1], namespace=ca.args[2], cls=SymV(new))
             return (SymV(new),)
+        if len(ca.args) == 1 and isinstance(ca.args[0], SymV):
+            st = it.st
+            used(it, REFL + 'type(x) of an opaque value: its class, an opaque class value (a function of x)')
+            c = attr_fn('__class__')(ca.args[0].t)
+            st.assume(c != NONE)
+            st.assume(ISCLASS(c))
+            return (SymV(c),)
         return None
 
     def isinstance_symv(self, it, v, spec):
